@@ -4,7 +4,8 @@ import posixpath
 
 from symx.core import tb, conj
 from symx.abuf import ABuf
-from symx.loader import World
+from symx.loader import World, BenTok
+from symx.afs import AFS
 
 from harness import rebuildw as rw
 from harness import recheck as rk
@@ -55,7 +56,43 @@ def jobs(tier):
                     dict(version=version, shape="flat2", P=16384, K=2, layout="flat", decoy="before", pre="empty", damage="first-missing")))
     for version in (1, 2):
         out.append(("v%d.hostile-name-into-search-dir" % version, "job_hostile", dict(version=version)))
+        out.append(("v%d.two-releases-same-destination" % version, "job_two_releases", dict(version=version, releases=2)))
     return out
+
+
+def job_two_releases(E, version, releases=2, _mutants=None):
+    """Repeated rebuilds into one destination with two metafiles that assign the same path: release 1 has name/a of
+    n bytes, release 2 a longer name/a.  Both genuine files are in the search tree; it must stay as it was."""
+    P = 16384
+    fs = AFS(order="reversed")
+    n1 = E.int("n1", 1, 2 * P)
+    n2 = E.int("n2", 2, 3 * P)
+    sb = E.int("sb", 1, P)
+    E.assume(n2 > n1)
+    E.note("shape", "flat2")
+    fs.add("/src/rel1/a", ("f", 0), n1)
+    fs.add("/src/rel2/a", ("g", 0), n2)
+    fs.add("/src/b", ("f", 1), sb)
+    m1 = rk.ref_meta(E, version, "flat2", {"name/a": n1, "name/b": sb}, P, False, True)
+    save = cr.fid_of
+    try:
+        cr.fid_of = lambda shape, rel, names=None: ("g", 0) if rel.endswith("/a") else ("f", 1)
+        m2 = rk.ref_meta(E, version, "flat2", {"name/a": n2, "name/b": sb}, P, False, True)
+    finally:
+        cr.fid_of = save
+    fs.add_token("/t/one.torrent", BenTok(m1))
+    fs.add_token("/t/two.torrent", BenTok(m2))
+    fs.mkdirs("/dest")
+    snap = fs.snapshot()
+    w = World(fs, mutants=_mutants)
+    for mf in ("/t/one.torrent", "/t/two.torrent"):
+        ok, _ = rw.run_rebuild(E, w, [mf], ["/src"], "/dest", "C14.releases")
+        if not ok:
+            return
+    changed = [d for d in fs.diff(snap) if d[1].startswith("/src/") or d[1].startswith("/t/")]
+    E.check(not changed, "C14.releases.sources-untouched", "after rebuilding two releases into one destination the search tree differs: %r" % (changed[:4],))
+    for k in WITNESSES:
+        E.witnesses.setdefault(k, True)
 
 
 def job_hostile(E, version, _mutants=None):
@@ -216,8 +253,38 @@ def _replay_hostile(params, model, workdir, seed):
             if before.get(k) != after.get(k) and not k.startswith("w/dest/") and k != "w/dest"]
 
 
+def _replay_releases(params, model, workdir, seed):
+    import io
+    import contextlib
+    P = 16384
+    n1, n2, sb = int(model["n1"]), int(model["n2"]), int(model["sb"])
+    a1, a2, b = refconc.content(("f", 0), n1, seed), refconc.content(("g", 0), n2, seed), refconc.content(("f", 1), sb, seed)
+    refconc.write_file(workdir + "/src/rel1/a", a1)
+    refconc.write_file(workdir + "/src/rel2/a", a2)
+    refconc.write_file(workdir + "/src/b", b)
+    for nm, a in (("one", a1), ("two", a2)):
+        refconc.write_file(workdir + "/t/%s.torrent" % nm, refconc.bencode(refconc.build_meta([(["a"], a), (["b"], b)], P, params["version"])))
+    os.makedirs(workdir + "/dest")
+    before = refconc.snapshot(workdir)
+    mods = cr.real_torrentfile()
+    real_listdir = os.listdir
+    os.listdir = lambda p=".": sorted(real_listdir(p), reverse=True)
+    try:
+        with contextlib.redirect_stdout(io.StringIO()):
+            for nm in ("one", "two"):
+                mods["torrentfile.rebuild"].Assembler([workdir + "/t/%s.torrent" % nm], [workdir + "/src"], workdir + "/dest").assemble_torrents()
+    except Exception as ex:  # noqa: BLE001
+        return ["C14.releases.no-exception: %s: %s" % (type(ex).__name__, ex)]
+    finally:
+        os.listdir = real_listdir
+    after = refconc.snapshot(workdir)
+    return ["C14.releases.sources-untouched:%s" % k for k in before if not k.startswith("dest") and before[k] != after.get(k)]
+
+
 def replay(params, model, notes, workdir, seed):
     from harness import c13
+    if "releases" in params:
+        return _replay_releases(params, model, workdir, seed)
     if "shape" not in params:
         return _replay_hostile(params, model, workdir, seed)
     sizes, data, expected = rw.conc_world(params, model, workdir, seed)
